@@ -52,6 +52,10 @@ pub struct RunReport {
     pub panics: Vec<(usize, String)>,
     /// property specific details shown in samples / replay files
     pub detail: serde_json::Value,
+    /// secondary identities counted separately (C05: one per compared compile =
+    /// hash of program text and perturbation vector)
+    #[serde(default)]
+    pub extra_keys: Vec<u64>,
 }
 
 #[derive(Serialize, Deserialize, Clone, Debug)]
